@@ -186,7 +186,9 @@ func ReadResponse(r *bufio.Reader) (*Response, error) {
 	if cl > 0 {
 		// 读取 n 字节的字串Body
 		body := make([]byte, cl)
-		_, err = io.ReadFull(r, body)
+		if _, err = io.ReadFull(r, body); err != nil {
+			return nil, err
+		}
 		resp.Body = string(body)
 	}
 	return resp, nil
